@@ -23,7 +23,7 @@ fn gen_ref_library(r: &mut Rng, n: usize, chain: bool) -> Vec<(String, String)> 
             let nrefs = if chain { 1 } else { r.range(0, 3) };
             for j in 0..nrefs {
                 let target = if chain { keys[(i + 1) % n].clone() } else if r.chance(1, 8) { "missing".to_string() } else { r.pick(&keys[..]).clone() };
-                let link = Key::from_file_name(&target).to_rel_link_url(&dir);
+                let link = crate::oracle::md::rel_url(&target, &dir);
                 let link = if link.is_empty() { target.clone() } else { link };
                 if r.chance(1, 4) {
                     text.push_str(&format!("\n## sub {}.{}\n\n[t]({})\n\ntail {}.{}\n", i, j, link, i, j));
